@@ -7,6 +7,7 @@ package core
 import (
 	"bytes"
 	"sort"
+	"sync"
 
 	"github.com/dominant-strategies/go-quai/common"
 	"github.com/dominant-strategies/go-quai/core/types"
@@ -53,3 +54,23 @@ func (sl *Slice) VerifSetLockupContract(addr *common.Address) {
 
 // VerifPurgeOrderCache empties the order cache (what a restart or an eviction does), so that the next CalcOrder computes afresh.
 func (hc *HeaderChain) VerifPurgeOrderCache() { hc.calcOrderCache.Purge() }
+
+// verifMinerData holds, per worker, the bytes a miner that assembles its own header data puts after the lockup byte
+// (the node's own worker only ever writes nothing or a lockup-contract address there).
+var verifMinerData sync.Map
+
+// VerifSetMinerData sets (nil: clears) the bytes that follow the lockup byte in the data of the headers the worker builds.
+func (sl *Slice) VerifSetMinerData(extra []byte) {
+	if extra == nil {
+		verifMinerData.Delete(sl.miner.worker)
+		return
+	}
+	verifMinerData.Store(sl.miner.worker, append([]byte(nil), extra...))
+}
+
+func verifMinerDataFor(w *worker, data []byte) []byte {
+	if v, ok := verifMinerData.Load(w); ok && len(data) > 0 {
+		return append(append([]byte(nil), data[0]), v.([]byte)...)
+	}
+	return data
+}
